@@ -42,7 +42,7 @@ Noise == IF InvFull THEN InvAlphabet \cup {St("oth", "-", "-", "-", 0)} ELSE Bas
 (* ([c, k]) or None; ers: calls already answered with an error; noise: noise steps so far    *)
 NoCall == [c |-> "-", k |-> "-"]
 S0 == [n |-> 0, has |-> {}, open |-> [r \in ERooms |-> NoCall], ers |-> {}, roomOf |-> <<>>, noise |-> 0,
-       partial |-> FALSE, nsplit |-> 0]
+       partial |-> FALSE, nsplit |-> 0, pend |-> [r \in ERooms |-> "-"]]
 
 Close(ss, r) == [ss EXCEPT !.open[r] = NoCall]
 (* calls and cancellations *)
@@ -65,13 +65,20 @@ Sends(ss) ==
           : i \in {i \in 1..ss.n : i \notin ss.ers}}
   \* noise
   \cup (IF ss.noise < MaxNoise THEN {<<SendStep(s), [ss EXCEPT !.noise = @ + 1]>> : s \in Noise} ELSE {})
-(* the same stanzas with only a first piece delivered now *)
+(* the same stanzas with only a first piece delivered now: the call it answers stays open  *)
+(* (it may still be cancelled) until the remainder has been delivered                       *)
 SplitSends(ss) ==
   IF ss.nsplit < MaxSplit
-  THEN {<<[x[1] EXCEPT !.cut = k], [x[2] EXCEPT !.partial = TRUE, !.nsplit = @ + 1]>> : x \in Sends(ss), k \in Cuts}
+  THEN {<<[x[1] EXCEPT !.cut = k],
+          [x[2] EXCEPT !.open = ss.open, !.partial = TRUE, !.nsplit = @ + 1,
+                       !.pend = [r \in ERooms |-> IF x[2].open[r] # ss.open[r] THEN ss.open[r].c ELSE "-"]]>>
+          : x \in Sends(ss), k \in Cuts}
   ELSE {}
+AfterRest(ss) ==
+  [ss EXCEPT !.partial = FALSE, !.pend = [r \in ERooms |-> "-"],
+             !.open = [r \in ERooms |-> IF ss.pend[r] # "-" /\ ss.open[r].c = ss.pend[r] THEN NoCall ELSE ss.open[r]]]
 Ext(ss) ==
-  CallSteps(ss) \cup (IF ss.partial THEN {<<RestStep, [ss EXCEPT !.partial = FALSE]>>} ELSE Sends(ss) \cup SplitSends(ss))
+  CallSteps(ss) \cup (IF ss.partial THEN {<<RestStep, AfterRest(ss)>>} ELSE Sends(ss) \cup SplitSends(ss))
 
 (* every non-empty script in which no stanza is left half delivered *)
 RECURSIVE Gen(_, _, _)
